@@ -1599,6 +1599,72 @@ func main() {
 		if !calls {
 			die("cmd/zygo main does not call zygo.ReplMain")
 		}
+		// the configuration ReplMain receives must be what ONE parse of the command line produced:
+		// flags defined once, parsed once, no field of cfg written afterwards (a second DefineFlags /
+		// Parse / a fresh FlagSet re-assigns defaults and can silently drop -sandbox)
+		nDefine, nParse, nCtor := 0, 0, 0
+		for _, mnd := range mainPkg.nodes {
+			for _, b := range mnd.bodies {
+				ast.Inspect(b, func(n ast.Node) bool {
+					switch x := n.(type) {
+					case *ast.CallExpr:
+						if s, ok := x.Fun.(*ast.SelectorExpr); ok {
+							switch s.Sel.Name {
+							case "DefineFlags":
+								nDefine++
+							case "Parse":
+								nParse++
+							case "NewZlispConfig":
+								nCtor++
+							case "NewFlagSet", "Set", "BoolVar", "StringVar", "Var":
+								die("cmd/zygo: %s called outside the library's flag definition (%s)", s.Sel.Name, mainPkg.fset.Position(x.Pos()))
+							}
+						}
+					case *ast.AssignStmt:
+						for _, l := range x.Lhs {
+							if sel, ok := l.(*ast.SelectorExpr); ok {
+								die("cmd/zygo: assignment to %s.%s: the configuration is written outside flag parsing (%s)", typeName(sel.X), sel.Sel.Name, mainPkg.fset.Position(x.Pos()))
+							}
+						}
+					case *ast.UnaryExpr:
+						if x.Op == token.AND {
+							if _, ok := x.X.(*ast.SelectorExpr); ok {
+								die("cmd/zygo: address of a configuration field taken (%s)", mainPkg.fset.Position(x.Pos()))
+							}
+						}
+					}
+					return true
+				})
+			}
+		}
+		if nDefine != 1 || nParse != 1 || nCtor != 1 {
+			die("cmd/zygo: expected exactly one NewZlispConfig, one DefineFlags and one Parse, found %d/%d/%d", nCtor, nDefine, nParse)
+		}
+		// inside the library nothing but the flag definition may write cfg.Sandboxed, and nobody re-defines the flags
+		for k, znd := range p.nodes {
+			for _, b := range znd.bodies {
+				ast.Inspect(b, func(n ast.Node) bool {
+					switch x := n.(type) {
+					case *ast.CallExpr:
+						if s, ok := x.Fun.(*ast.SelectorExpr); ok && s.Sel.Name == "DefineFlags" {
+							die("%s calls DefineFlags again", k)
+						}
+					case *ast.AssignStmt:
+						for _, l := range x.Lhs {
+							if endsInField(l, "Sandboxed") {
+								die("%s assigns the Sandboxed field of the configuration", k)
+							}
+						}
+					case *ast.UnaryExpr:
+						if x.Op == token.AND && endsInField(x.X, "Sandboxed") && k != "ZlispConfig.DefineFlags" {
+							die("%s takes the address of the Sandboxed field of the configuration", k)
+						}
+					case *ast.IncDecStmt:
+					}
+					return true
+				})
+			}
+		}
 		w.ctor = "NewZlispSandbox"
 		w.walkReplMain()
 	})
